@@ -67,7 +67,7 @@ ASSUMPTIONS = ["the length declared to MultiHash(length=) is the real length on 
                "SWHID is compared as text"]
 
 BLOCK = 32768
-MULTIHASH_ROUTES = ("fd", "ff", "ffr", "ffs", "fp", "ch")
+MULTIHASH_ROUTES = ("fd", "ff", "ffr", "ffs", "fp", "fpl", "ch")
 
 # ------------------------------------------------------------------ the hash oracle of the harness
 
@@ -199,6 +199,15 @@ def impl_routes(c):
         res["ffs"] = guard(lambda: mh_res(MH.from_file(ShortReader(data, c["sched"]), hash_names=names,
                                                        length=declared).digest()))
     res["fp"] = guard(lambda: mh_res(MH.from_path(path, hash_names=names).digest()))
+    # ... and the same path reached through a symbolic link (open() and the size both follow it)
+    lpath = os.path.join(tmpdir(), "link-to-file")
+    try:
+        if os.path.lexists(lpath):
+            os.unlink(lpath)
+        os.symlink(os.path.basename(path) if os.path.dirname(path) == tmpdir() else path, lpath)
+        res["fpl"] = guard(lambda: mh_res(MH.from_path(lpath, hash_names=names).digest()))
+    except OSError:
+        pass
 
     def chunked():
         h = MH(hash_names=names, length=declared)
@@ -470,7 +479,7 @@ def cmp_route(code, m, i, data, mode="sym"):
     return None
 
 
-IMPL_TO_MODEL = {"ffr": "ff", "sp": "cf"}
+IMPL_TO_MODEL = {"ffr": "ff", "sp": "cf", "fpl": "fp"}
 
 
 def compare(c, ires, mres):
@@ -918,3 +927,101 @@ ANCHORS = [('swh/model/hashutil.py', 'MultiHash.*'),
            ('swh/model/git_objects.py', 'content_git_object'),
            ('swh/model/cli.py', 'swhid_of_file'),
            ('swh/model/cli.py', 'swhid_of_file_content')]
+
+
+# the case stream is ordered by family (routes, names, scripts) and most route cases are large: coq_cases gets every case and
+# keeps the first small ones of each family (it shrinks the list it is given IN PLACE: the evidence's `n` is the number evaluated)
+COQ_SAMPLE = 1 << 30
+COQ_PER_KIND = 10
+
+
+def coq_cases(cases):
+    """run_route (every route, oracles Hsym and Hexec = executable SHA-1) with `view`, and run_script with from_state_new,
+    evaluated by vm_compute inside Coq vs the extracted driver, on cases of at most 300 bytes of data; one checksum per case
+    over all its driver requests.  The Coq terms are built from the very request lines the driver receives."""
+    from . import core
+    chosen = []
+    count = {}
+    for c in cases:
+        k = c["kind"]
+        if count.get(k, 0) >= COQ_PER_KIND:
+            continue
+        if k != "script" and len(data_of(c["data"])) > 300:
+            continue
+        rqs = requests(c)
+        if sum(len(r) for r in rqs) > 4000:
+            continue
+        count[k] = count.get(k, 0) + 1
+        chosen.append((c, rqs))
+    cases[:] = [c for c, _ in chosen]
+    ROUTE = {"fd": "RFromData", "ff": "RFromFile", "fp": "RFromPath", "ch": "RChunked", "hg": "RHashGitData", "cg": "RContentGitObject",
+             "mc": "RModelContent", "ms": "RModelSkipped", "db": "RDiskBytes", "df": "RDiskFile", "dl": "RDiskSymlink",
+             "do": "RDiskOther", "cf": "RCliFile", "cs": "RCliStdin"}
+
+    def nl(h):
+        return "[" + "; ".join("%d" % b for b in core.unhx(h)) + "]%N"
+    def lst(sep, f, s):
+        return "[" + ("" if s == "~" else "; ".join(f(x) for x in s.split(sep))) + "]"
+    def optn(s):
+        return "None" if s == "-" else "(Some %d%%N)" % int(s)
+    def nat(s):
+        return "(N.to_nat %d%%N)" % int(s)
+    def op(s):
+        w = s.split(":")
+        if w[0] == "n":
+            return "ONew %s %s" % (lst(",", nl, w[1]), optn(w[2]))
+        if w[0] == "u":
+            return "OUpdate %s %s" % (nat(w[1]), nl(w[2]))
+        return "%s %s" % ({"c": "OCopy", "d": "ODigest"}[w[0]], nat(w[1]))
+    def term(rq):
+        w = rq.split(" ")
+        H = {"sym": "Hsym", "exec": "Hexec"}[w[1]]
+        if w[0] == "script":
+            return "script_case %s %s" % (H, lst("/", op, w[3]))
+        return ("run_case %s %s {| i_names := %s; i_length := %s; i_chunks := %s; i_sched := %s; i_maxlen := %s |}"
+                % (H, lst(",", lambda r: ROUTE[r], w[2]), lst(",", nl, w[3]), optn(w[4]), lst("|", nl, w[5]), lst(",", nat, w[6]),
+                   optn(w[7])))
+    src = ("From Coq Require Import List NArith.\nFrom SWH.lib Require Import Bytes.\nFrom SWH.model Require Import Hashutil.\n"
+           "Import ListNotations.\n" + core.COQ_CHECKSUM + """
+Definition en (e : err) : N := match e with ValueError => 1 | TypeError => 2 | KeyError => 3 | AttributeError => 4 | MissingData => 5
+  | OtherException => 6 | OutOfFuel => 7 | ReaderExhausted => 8 | BadHandle => 9 end%N.
+Definition optn (o : option N) : list N := match o with Some x => [343%N; x] | None => [344%N] end.
+Definition dict (show : list N -> list N) (d : digest_t) : list N :=
+  optn (snd d) ++ concat (map (fun kv : list N * list N => fst kv ++ [340%N] ++ show (snd kv)) (fst d)).
+Definition show_view (data x : list N) : list N := let (p, t) := view data x in p ++ [if t then 341%N else 342%N].
+Definition run_case (H : list N -> list N -> list N) (rs : list route) (i : input) : list N :=
+  concat (map (fun r => match run_route H r i with Ok d => 70%N :: dict (show_view (i_data i)) d | Err e => [71%N; en e] end) rs).
+Definition script_case (H : list N -> list N -> list N) (ops : list op) : list N :=
+  concat (map (fun ev => match ev with EvDone => [72%N] | EvErr e => [71%N; en e]
+                                     | EvDigest d => 73%N :: dict (fun x => x ++ [342%N]) d end)
+              (run_script H from_state_new [] [] ops)).
+""" + "Definition cases : list (list (list N)) := [" +
+           ";\n ".join("[" + ";\n  ".join(term(r) for r in rqs) + "]" for _, rqs in chosen) + "].\n"
+           "Eval vm_compute in map (fun rs => cksum (map cksum rs)) cases.\n")
+    EN = {"ValueError": 1, "TypeError": 2, "KeyError": 3, "AttributeError": 4, "MissingData": 5, "Other(Exception)": 6, "OutOfFuel": 7,
+          "ReaderExhausted": 8, "BadHandle": 9}
+    def optn_py(s):
+        return [344] if s == "-" else [343, int(s)]
+    def dict_py(s):
+        ln, kvs = s.split(":")
+        out = optn_py(ln)
+        for kv in (kvs.split(",") if kvs else []):
+            k, v = kv.split("=")
+            out += list(core.unhx(k)) + [340] + (list(core.unhx(v[:-1] or ".")) + [341] if v.endswith("+") else list(core.unhx(v)) + [342])
+        return out
+    def answer(rq, r):
+        assert r.startswith("ok"), r
+        body = r[3:]
+        out = []
+        if rq.startswith("script"):
+            for ev in (body.split(";") if body else []):
+                out += [72] if ev == "done" else [71, EN[ev[2:]]] if ev.startswith("E:") else [73] + dict_py(ev[2:])
+            return out
+        for item in body.split(";"):
+            res = item.split("=", 1)[1]
+            out += [71, EN[res[2:]]] if res.startswith("E:") else [70] + dict_py(res[2:])
+        return out
+    flat = [r for _, rqs in chosen for r in rqs]
+    resp = iter(core.run_driver(ID, flat))
+    exp = [core.py_cksum([core.py_cksum(answer(rq, next(resp))) for rq in rqs]) for _, rqs in chosen]
+    return src, exp
